@@ -208,7 +208,7 @@ def l3_run(chk, name, driver="mixed", strings=600, per_string=4, kinds=None, pro
     return info
 
 
-def long_run(chk, profiles=None, ops=None, random_units=60, name="long", max_bytes=None):
+def long_run(chk, profiles=None, ops=None, random_units=60, name="long", max_bytes=None, ctx=False):
     """the power law of Profiles.tla (model-checked as PowerLawHolds) applied to the real code on inputs of up to 64 KiB;
     the results for the units themselves are judged by TLC"""
     import shutil
@@ -223,6 +223,8 @@ def long_run(chk, profiles=None, ops=None, random_units=60, name="long", max_byt
             args += ["--profiles", ",".join(profiles)]
         if ops:
             args += ["--ops", ",".join(ops)]
+        if ctx:
+            args += ["--ctx"]
         out, t = run_harness(args, timeout=3000)
         summ = None
         for line in nl_lines(out):
@@ -238,6 +240,8 @@ def long_run(chk, profiles=None, ops=None, random_units=60, name="long", max_byt
         chk.add_part("long inputs: power and pad laws on inputs up to %d bytes" % summ["longest_input_bytes"], dict(summ, wall_s=round(t, 1)))
         chk.cov["evaluations"] += summ["calls"]
         kinds = list(ops) if ops else ["enforce", "prepare", "rule"]
+        if ctx:
+            kinds = ["ctx", "ctx", "allows"]
         l3_run(chk, name + "-units", driver="corpus", per_string=4, kinds=kinds, profiles=profiles, corpus_file=os.path.join(d, "units.ndjson"))
     finally:
         shutil.rmtree(d, ignore_errors=True)
